@@ -64,6 +64,14 @@ fn install_hook() {
         let prev = std::panic::take_hook();
         std::panic::set_hook(Box::new(move |info| {
             let capturing = CAPTURING.with(|c| c.get());
+            {
+                // about to abort (a std `ub_checks` precondition, a panic in a
+                // nounwind function): leave the message on stderr for the supervisor
+                let m = format!("{}", info);
+                if m.contains("unsafe precondition") || m.contains("cannot unwind") || m.contains("misaligned") || m.contains("null pointer") {
+                    eprintln!("NON-UNWINDING PANIC: {}", m);
+                }
+            }
             if capturing {
                 let location = info
                     .location()
@@ -201,6 +209,8 @@ impl Default for WorkerIo {
 #[derive(Debug, Clone)]
 pub struct Death {
     pub shard: usize,
+    /// ordinal of the sub-step in flight (u64::MAX = unknown)
+    pub ordinal: u64,
     pub idx: u64,
     pub label: String,
     pub status: String,
@@ -251,16 +261,30 @@ pub fn supervise(
                         break;
                     }
                     let mut from: u64 = 0;
+                    let mut subskip: u64 = 0;
                     let mut restarts = 0;
                     loop {
                         let (frag, outcome) =
-                            run_worker(ctx, exe, args, shard, shards, from, envs);
+                            run_worker(ctx, exe, args, shard, shards, from, subskip, envs);
                         let mut g = results.lock().unwrap();
                         g.0.merge(frag);
                         match outcome {
                             WorkerOutcome::Done => break,
-                            WorkerOutcome::Died(d) => {
-                                from = d.idx + 1;
+                            WorkerOutcome::Died(mut d) => {
+                                // resume inside the same case when the worker told us
+                                // which sub-step it was executing
+                                let (ord, text) = read_sub(envs, shard);
+                                d.ordinal = ord;
+                                if !text.is_empty() {
+                                    d.label = format!("{} :: {}", d.label, text);
+                                }
+                                if ord != u64::MAX {
+                                    from = d.idx;
+                                    subskip = ord + 1;
+                                } else {
+                                    from = d.idx + 1;
+                                    subskip = 0;
+                                }
                                 g.1.push(d);
                                 restarts += 1;
                                 if restarts > max_restarts_per_shard {
@@ -284,6 +308,25 @@ pub fn supervise(
     results.into_inner().unwrap()
 }
 
+/// (ordinal, text) stored by `driver::sub_mark[_n]` in the shard's shared marker file
+fn read_sub(envs: &[(String, String)], shard: usize) -> (u64, String) {
+    for (k, v) in envs {
+        if k == "VERIF_SUBFILE_DIR" {
+            let p = format!("{}/sub-{}-{}", v, std::process::id(), shard);
+            if let Ok(b) = std::fs::read(&p) {
+                if b.len() >= 16 {
+                    let mut a = [0u8; 8];
+                    a.copy_from_slice(&b[b.len() - 8..]);
+                    let n = u16::from_le_bytes([b[0], b[1]]) as usize;
+                    let text = String::from_utf8_lossy(&b[2..(2 + n).min(b.len() - 8)]).to_string();
+                    return (u64::from_le_bytes(a), text);
+                }
+            }
+        }
+    }
+    (u64::MAX, String::new())
+}
+
 enum WorkerOutcome {
     Done,
     Died(Death),
@@ -297,6 +340,7 @@ fn run_worker(
     shard: usize,
     shards: usize,
     from: u64,
+    subskip: u64,
     envs: &[(String, String)],
 ) -> (Frag, WorkerOutcome) {
     let tmpdir = ctx.root.join("work").join("tmp");
@@ -320,9 +364,12 @@ fn run_worker(
         .arg(shards.to_string())
         .arg("--from")
         .arg(from.to_string())
+        .arg("--subskip")
+        .arg(subskip.to_string())
         .env("VERIF_SEED", (ctx.seed as i64).to_string())
         .env("VERIF_TIER", &ctx.tier)
         .env("VERIF_ROOT", &ctx.root)
+        .env("RUST_BACKTRACE", "0")
         .stdin(Stdio::null())
         .stdout(Stdio::piped())
         .stderr(Stdio::from(errfile));
@@ -363,7 +410,7 @@ fn run_worker(
         }
     }
     let status = child.wait();
-    let tail = read_tail(&errpath, 4096);
+    let tail = read_tail(&errpath, 262144);
     let _ = std::fs::remove_file(&errpath);
     let status_s = match &status {
         Ok(s) => {
@@ -384,6 +431,7 @@ fn run_worker(
             frag,
             WorkerOutcome::Died(Death {
                 shard,
+                ordinal: u64::MAX,
                 idx,
                 label,
                 status: status_s,
@@ -418,6 +466,9 @@ pub struct WorkerArgs {
     pub shard: usize,
     pub nshards: usize,
     pub from: u64,
+    /// ordinals below this are skipped inside case `from` (resume inside a case
+    /// after the worker died in it)
+    pub subskip: u64,
 }
 
 pub fn worker_args(args: &[String]) -> WorkerArgs {
@@ -441,6 +492,10 @@ pub fn worker_args(args: &[String]) -> WorkerArgs {
                 w.from = args.get(i + 1).and_then(|x| x.parse().ok()).unwrap_or(0);
                 i += 1;
             }
+            "--subskip" => {
+                w.subskip = args.get(i + 1).and_then(|x| x.parse().ok()).unwrap_or(0);
+                i += 1;
+            }
             _ => {}
         }
         i += 1;
@@ -450,5 +505,6 @@ pub fn worker_args(args: &[String]) -> WorkerArgs {
 
 pub fn death_json(d: &Death) -> Value {
     json!({"case_index": d.idx, "label": d.label, "status": d.status, "class": d.class(),
-           "stderr_tail": d.stderr_tail.chars().rev().take(600).collect::<String>().chars().rev().collect::<String>()})
+           "stderr_head": d.stderr_tail.chars().take(500).collect::<String>(),
+           "stderr_tail": d.stderr_tail.chars().rev().take(300).collect::<String>().chars().rev().collect::<String>()})
 }
